@@ -190,14 +190,19 @@ def work_kernels(task):
         L0 = np.abs(rng.normal(size=(n, n))) * 0.2
         L0 = (L0 + L0.T) / 2
         base = None
-        for (order, ro, lamk, rho, cb) in itertools.product(("C", "F"), (False, True), ("matrix", "scalar"),
-                                                          (1.0, 10.0), (False, True)):
+        # a covariance whose two triangles differ by round-off (what a caller's own estimator may hand in)
+        S_asym = S0.copy()
+        S_asym[0, n - 1] = np.nextafter(S_asym[0, n - 1], np.inf)
+        for (order, ro, lamk, rho, cb, sym) in itertools.product(("C", "F"), (False, True), ("matrix", "scalar"),
+                                                               (1.0, 10.0), (False, True), (True, False)):
             from checks.c02 import boyd
-            args = {"S": form(S0, order, ro), "lam": form(L0, order, ro) if lamk == "matrix" else 0.11}
+            if not sym and (n == 1 or rho != 1.0 or cb):
+                continue
+            args = {"S": form(S0 if sym else S_asym, order, ro), "lam": form(L0, order, ro) if lamk == "matrix" else 0.11}
             before = {k: snap(v) for k, v in args.items()}
             acc.n += 1
             case = {"kind": "admm", "N": N, "W": W, "order": order, "readonly": ro, "lambda": lamk, "rho": rho,
-                    "callback": cb, "mode": mode}
+                    "callback": cb, "mode": mode, "exactly_symmetric": sym}
             try:
                 th = admm.admm_optimize_theta(args["S"], args["lam"], W, N, rho=rho,
                                               rho_update=boyd if cb else None).theta
@@ -209,7 +214,7 @@ def work_kernels(task):
             if ch:
                 acc.fail(case, f"optimiser entry point modified {ch}")
             acc.nontrivial += 1
-            key = (lamk, rho, cb)
+            key = (lamk, rho, cb, sym)
             if base is None:
                 base = {}
             if key not in base:
